@@ -363,3 +363,95 @@ func paramObj(f *core.Func, name string) types.Object {
 	}
 	return nil
 }
+
+// pairedEvents checks strict alternation A,B,A,B… on every path of g: each A
+// is followed by a B before the next A or a normal exit, and each B is
+// preceded by an A since the previous B or the entry.  It reports the first
+// counterexample per direction.
+func pairedEvents(g *core.Graph, as, bs []core.Point) (msg string, trail []string, ok bool) {
+	exits := core.ExitPoints(normalExits(g))
+	for i := range as {
+		from := as[i]
+		if tr, found := pathAvoiding(g, &from, append(append([]core.Point{}, exits...), as...), bs); found {
+			return "an occurrence of the first event is not followed by the second before the function leaves (or the first occurs again)", tr, false
+		}
+	}
+	if tr, found := pathAvoiding(g, nil, bs, as); found {
+		return "the second event can occur without the first", tr, false
+	}
+	for i := range bs {
+		from := bs[i]
+		if tr, found := pathAvoiding(g, &from, bs, as); found {
+			return "the second event can occur twice for one occurrence of the first", tr, false
+		}
+	}
+	return "", nil, true
+}
+
+// iterationCount counts events on the paths through one iteration of loop s
+// (from the start of its body back to the loop head).  ok is false if the
+// loop blocks cannot be found.
+func iterationCount(g *core.Graph, s ast.Stmt, events []core.Point) (core.Cnt, bool) {
+	head, body, _ := loopBlocks(g, s)
+	if head == nil || body == nil {
+		return core.Cnt{}, false
+	}
+	ctr := g.Count(&core.Point{B: body, I: -1}, events, map[*cfg.Block]bool{head: true})
+	return ctr.At(core.Point{B: head, I: 0})
+}
+
+// expvarAdds finds calls `<pkgvar>.Add(...)` on the package-level variable with the given name.
+func expvarAdds(g *core.Graph, varName string) []core.Hit {
+	return g.Calls(func(id string, call *ast.CallExpr) bool {
+		if !strings.HasSuffix(id, ".Add") || !strings.HasPrefix(id, "expvar.") {
+			return false
+		}
+		r := core.RecvExpr(call)
+		if r == nil {
+			return false
+		}
+		p := core.PathOf(r)
+		return p == varName || strings.HasSuffix(p, "."+varName)
+	})
+}
+
+// returnsNil reports whether the return statement returns the literal nil as its last result.
+func returnsNil(info *types.Info, r *ast.ReturnStmt) bool {
+	if r == nil || len(r.Results) == 0 {
+		return true
+	}
+	return isNilIdent(info, r.Results[len(r.Results)-1])
+}
+
+// rangeStmts lists the range statements of f (not in nested literals).
+func rangeStmts(f *core.Func) []*ast.RangeStmt {
+	var out []*ast.RangeStmt
+	core.InspectNoLit(f.Body, func(n ast.Node) bool {
+		if rs, ok := n.(*ast.RangeStmt); ok {
+			out = append(out, rs)
+		}
+		return true
+	})
+	return out
+}
+
+// isChanOfLogLine reports whether the expression is a channel of *logline.LogLine.
+func isChanOfLogLine(info *types.Info, e ast.Expr) bool {
+	t := info.TypeOf(e)
+	if t == nil {
+		return false
+	}
+	ch, ok := t.Underlying().(*types.Chan)
+	if !ok {
+		return false
+	}
+	return strings.HasSuffix(ch.Elem().String(), "logline.LogLine")
+}
+
+// sendsOfLines finds send statements on channels of *logline.LogLine.
+func sendsOfLines(g *core.Graph) []core.Hit {
+	return g.Find(func(n ast.Node) bool {
+		s, ok := n.(*ast.SendStmt)
+		return ok && isChanOfLogLine(g.F.Info(), s.Chan)
+	})
+}
